@@ -58,6 +58,9 @@ def field(vec, spec, mode):
     if mode == "RGB":
         return np.stack([g, g, g], axis=-1)
     a = np.full(g.shape, 255, dtype=np.uint8)
+    if spec.get("soft_alpha"):
+        # partially transparent samples (anti-aliased overlays): alpha anywhere in 1..254, a value like any other
+        a = (1 + (g.astype(np.int64) * 7 + 13) % 254).astype(np.uint8)
     out = np.stack([g, g, g, a], axis=-1)
     if spec.get("cap"):
         c = np.array(spec["cap"]["c"], dtype=float)
@@ -285,6 +288,8 @@ def exec_case(case, real=False):
     cls = [fmt, mode, f"depth{depth}", "planetary" if planetary else "astronomical", f"k{k}", "+".join(c["kind"] for c in case["calls"])]
     if any(c.get("via") for c in case["calls"]):
         cls.append("through-Builder.toast_base")
+    if any(c_["sampler"].get("soft_alpha") for c_ in case["calls"]):
+        cls.append("partially-transparent-samples")
     if fmt == "fits":
         cls.append("bottom-up")
     if case.get("warmup"):
@@ -310,6 +315,8 @@ def sampler_specs(draw, mode):
         spec["gain"] = draw(st.sampled_from([1.0, 100.0]))
         if draw(st.integers(0, 4)) == 0:
             spec["inf_above"] = draw(st.sampled_from([-2.0, -0.5, 0.0, 0.3, 0.8]))
+    if mode == "RGBA" and draw(st.integers(0, 2)) == 0:
+        spec["soft_alpha"] = True
     if mode in ("F64", "F32", "RGBA") and draw(st.integers(0, 2)) > 0:
         c = [draw(st.floats(-1, 1)) for _ in range(3)]
         if sum(abs(v) for v in c) < 0.1:
